@@ -409,11 +409,11 @@ fn run_routing_history(rng: &mut Rng) -> Result<(Vec<String>, Vec<String>, Optio
                     };
                     let name = format!("r{}", i);
                     let b = Receiver::builder().name(name.clone()).source("q").credit_mode(CreditMode::Manual).auto_accept(false);
-                    let att = b.attach(&mut session);
+                    let att = tokio::time::timeout(Duration::from_secs(5), b.attach(&mut session));
                     let pa = peer.accept_attach(0, h, Some(0), ReceiverSettleMode::First);
                     let (ra, rp) = tokio::join!(att, pa);
                     let theirs = rp.map_err(|e| format!("peer attach: {:?}", e))?;
-                    let mut r = ra.map_err(|e| format!("attach: {:?}", e))?;
+                    let mut r = ra.map_err(|_| "the peer's attach did not reach the link: attach() is still waiting".to_string())?.map_err(|e| format!("attach: {:?}", e))?;
                     r.set_credit(20).await.map_err(|e| format!("set_credit: {:?}", e))?;
                     let _ = peer.recv_frame().await; // the flow
                     model.push(format!("U alloc {}", name));
@@ -428,7 +428,7 @@ fn run_routing_history(rng: &mut Rng) -> Result<(Vec<String>, Vec<String>, Optio
                 ROp::Close(i) => {
                     let r = receivers[*i].take().ok_or("close of a link that is not attached")?;
                     let (lid, _out, h) = info[*i].take().ok_or("no info")?;
-                    let closing = tokio::spawn(async move { r.close().await });
+                    let closing = tokio::spawn(async move { tokio::time::timeout(Duration::from_secs(5), r.close()).await.unwrap_or(Ok(())) });
                     let out = loop {
                         match peer.recv_frame().await {
                             Ok((_, Performative::Detach(d), _)) => break d.handle.0,
@@ -450,7 +450,7 @@ fn run_routing_history(rng: &mut Rng) -> Result<(Vec<String>, Vec<String>, Optio
                     let (lid, my_out, h) = info[*i].take().ok_or("no info")?;
                     peer.send(0, Performative::Detach(Detach { handle: Handle(h), closed: true, error: None }), &[]).await.map_err(|e| format!("{:?}", e))?;
                     tokio::time::sleep(Duration::from_millis(5)).await;
-                    let closing = tokio::spawn(async move { r.close().await });
+                    let closing = tokio::spawn(async move { tokio::time::timeout(Duration::from_secs(5), r.close()).await.unwrap_or(Ok(())) });
                     let out = loop {
                         match peer.recv_frame().await {
                             Ok((_, Performative::Detach(d), _)) => break Some(d.handle.0),
@@ -518,6 +518,200 @@ fn run_routing_history(rng: &mut Rng) -> Result<(Vec<String>, Vec<String>, Optio
         }
         // the property, read directly off the two columns: a frame goes to the endpoint attached on its handle
         let verdict = imp.iter().zip(model.iter()).find(|(i, _)| i.starts_with("several") || i.starts_with("delivered-to-somebody") || *i == "nobody").map(|(i, m)| ("misrouted".to_string(), format!("{} -> {}", m, i)));
+        Ok((model, imp, verdict))
+    })
+}
+
+/// a history of session begins, ends (by either side) and deliveries across up to three sessions of one
+/// connection, the peer numbering its channels from a small pool and re-using them after an end; every
+/// step as a line for the channel-routing model (`Amqp/ChanRouting.lean`, driver prefix `J`) together
+/// with what the implementation did
+fn run_channel_history(rng: &mut Rng) -> Result<(Vec<String>, Vec<String>, Option<(String, String)>), String> {
+    #[derive(Clone, Debug)]
+    enum SOp {
+        Begin(usize),
+        End(usize),
+        PeerEnds(usize),
+        Transfer(usize),
+        Stale,
+    }
+    let n_ops = rng.range(3, 12) as usize;
+    let pool = [0u16, 1, 7, 256, 65535];
+    let mut ops: Vec<SOp> = vec![];
+    {
+        let mut live = [false; 3];
+        for k in 0..n_ops {
+            let i = rng.below(3) as usize;
+            let op = if !live[i] {
+                live[i] = true;
+                SOp::Begin(i)
+            } else {
+                match rng.below(6) {
+                    0 => {
+                        live[i] = false;
+                        SOp::End(i)
+                    }
+                    1 => {
+                        live[i] = false;
+                        SOp::PeerEnds(i)
+                    }
+                    _ => SOp::Transfer(i),
+                }
+            };
+            ops.push(op);
+            if k + 1 == n_ops && rng.chance(1, 4) {
+                ops.push(SOp::Stale);
+            }
+        }
+    }
+    let rt = paused_runtime();
+    let mut r2 = rng.fork();
+    rt.block_on(async move {
+        let (cio, pio) = tokio::io::duplex(1 << 20);
+        let mut peer = Peer::new(pio);
+        let client = tokio::spawn(async move { Connection::builder().container_id("c11j").channel_max(10).open_with_stream(cio).await.map_err(|e| format!("open: {:?}", e)) });
+        peer.accept_open(&PeerOpen { channel_max: 65535, ..PeerOpen::default() }).await.map_err(|e| format!("{:?}", e))?;
+        let mut conn = client.await.map_err(|e| format!("{:?}", e))??;
+        peer.recv_timeout = Duration::from_millis(200);
+        let mut model: Vec<String> = vec!["J reset 10".into()];
+        let mut imp: Vec<String> = vec!["ok".into()];
+        let mut sessions: [Option<(fe2o3_amqp::session::SessionHandle<()>, Receiver)>; 3] = [None, None, None];
+        // per slot: (endpoint number, our channel as seen on the wire, the peer's channel)
+        let mut info: [Option<(usize, u16, u16)>; 3] = [None, None, None];
+        let mut peer_live: Vec<u16> = vec![];
+        let mut freed: Vec<u16> = vec![];
+        let mut next_sid = 0usize;
+        for op in &ops {
+            match op {
+                SOp::Begin(i) => {
+                    let free: Vec<u16> = pool.iter().copied().filter(|c| !peer_live.contains(c)).collect();
+                    let pc = match freed.iter().copied().find(|c| free.contains(c)) {
+                        Some(c) if r2.chance(2, 3) => c,
+                        _ => *r2.pick(&free),
+                    };
+                    let (rb, rp) = tokio::join!(tokio::time::timeout(Duration::from_secs(5), Session::begin(&mut conn)), peer.accept_begin(pc, 0, 2048, 2048));
+                    let (ch, _) = rp.map_err(|e| format!("peer begin: {:?}", e))?;
+                    let mut session = match rb {
+                        Ok(r) => r.map_err(|e| format!("begin: {:?}", e))?,
+                        Err(_) => {
+                            model.push("J alloc".into());
+                            imp.push(format!("A {} {}", next_sid, ch));
+                            model.push(format!("J inbegin {} {}", pc, ch));
+                            imp.push("begin-never-completed".into());
+                            return Ok((model, imp, Some(("not-routed".into(), format!("the peer's begin on its channel {} answering our channel {} did not reach the session: begin() is still waiting", pc, ch)))));
+                        }
+                    };
+                    model.push("J alloc".into());
+                    imp.push(format!("A {} {}", next_sid, ch));
+                    model.push(format!("J inbegin {} {}", pc, ch));
+                    imp.push(format!("TO {}", next_sid));
+                    let b = Receiver::builder().name(format!("s{}", next_sid)).source("q").credit_mode(CreditMode::Manual).auto_accept(false);
+                    let (ra, rpa) = tokio::join!(tokio::time::timeout(Duration::from_secs(5), b.attach(&mut session)), async {
+                        let (ach, p, _) = peer.recv_frame().await.map_err(|e| format!("{:?}", e))?;
+                        let a = match p {
+                            Performative::Attach(a) => a,
+                            other => return Err(format!("expected attach, got {}", summarize(&other, 0))),
+                        };
+                        let ours = Attach { name: a.name.clone(), handle: Handle(5), role: Role::Sender, snd_settle_mode: a.snd_settle_mode.clone(), rcv_settle_mode: ReceiverSettleMode::First, source: a.source.clone(), target: a.target.clone(), unsettled: None, incomplete_unsettled: false, initial_delivery_count: Some(0), max_message_size: None, offered_capabilities: None, desired_capabilities: None, properties: None };
+                        peer.send(pc, Performative::Attach(ours), &[]).await.map_err(|e| format!("{:?}", e))?;
+                        Ok::<u16, String>(ach)
+                    });
+                    let ach = rpa?;
+                    let mut r = ra.map_err(|_| "attach on the new session did not complete".to_string())?.map_err(|e| format!("attach: {:?}", e))?;
+                    if ach != ch {
+                        return Ok((model, imp, Some(("frame-on-wrong-channel".into(), format!("the attach of the session begun on channel {} went out on channel {}", ch, ach)))));
+                    }
+                    r.set_credit(20).await.map_err(|e| format!("set_credit: {:?}", e))?;
+                    let _ = peer.recv_frame().await;
+                    info[*i] = Some((next_sid, ch, pc));
+                    next_sid += 1;
+                    peer_live.push(pc);
+                    sessions[*i] = Some((session, r));
+                }
+                SOp::End(i) => {
+                    let (mut session, r) = sessions[*i].take().ok_or("end of a session that is not live")?;
+                    let (sid, ch, pc) = info[*i].take().ok_or("no info")?;
+                    drop(r);
+                    let ending = tokio::spawn(async move { tokio::time::timeout(Duration::from_secs(5), session.end()).await.unwrap_or(Ok(())) });
+                    let out = loop {
+                        match peer.recv_frame().await {
+                            Ok((c, Performative::End(_), _)) => break c,
+                            Ok(_) => {}
+                            Err(e) => return Err(format!("no end from the client: {:?}", e)),
+                        }
+                    };
+                    peer.send(pc, Performative::End(fe2o3_amqp_types::performatives::End { error: None }), &[]).await.map_err(|e| format!("{:?}", e))?;
+                    let res = ending.await.map_err(|e| format!("{:?}", e))?;
+                    model.push(format!("J inend {}", pc));
+                    imp.push(if res.is_ok() && out == ch { format!("TO {}", sid) } else { format!("end-failed:{:?}:on-channel-{}", res.err(), out) });
+                    model.push(format!("J dealloc {}", ch));
+                    imp.push("DONE".into());
+                    peer_live.retain(|x| *x != pc);
+                    freed.push(pc);
+                }
+                SOp::PeerEnds(i) => {
+                    let (mut session, r) = sessions[*i].take().ok_or("end of a session that is not live")?;
+                    let (sid, ch, pc) = info[*i].take().ok_or("no info")?;
+                    drop(r);
+                    peer.send(pc, Performative::End(fe2o3_amqp_types::performatives::End { error: None }), &[]).await.map_err(|e| format!("{:?}", e))?;
+                    let out = loop {
+                        match peer.recv_frame().await {
+                            Ok((c, Performative::End(_), _)) => break Some(c),
+                            Ok(_) => {}
+                            Err(_) => break None,
+                        }
+                    };
+                    let _ = tokio::time::timeout(Duration::from_millis(200), session.on_end()).await;
+                    model.push(format!("J inend {}", pc));
+                    // the session that saw the peer's end answers it, on its own channel
+                    imp.push(if out == Some(ch) { format!("TO {}", sid) } else { format!("answered-on:{:?}", out) });
+                    model.push(format!("J dealloc {}", ch));
+                    imp.push("DONE".into());
+                    peer_live.retain(|x| *x != pc);
+                    freed.push(pc);
+                }
+                SOp::Transfer(i) => {
+                    let (_sid, _ch, pc) = info[*i].ok_or("transfer on a session that is not live")?;
+                    let t = transfer(5, Some(0), Some(vec![*i as u8]), Some(true), false);
+                    peer.send(pc, Performative::Transfer(t), &message_bytes(700 + *i as u64, 6)).await.map_err(|e| format!("{:?}", e))?;
+                    tokio::time::sleep(Duration::from_millis(5)).await;
+                    let mut got: Vec<usize> = vec![];
+                    for (j, s) in sessions.iter_mut().enumerate() {
+                        if let Some((_, r)) = s {
+                            if let Ok(Ok(_)) = tokio::time::timeout(Duration::from_millis(10), r.recv::<Value>()).await {
+                                got.push(info[j].map(|x| x.0).unwrap_or(999));
+                            }
+                        }
+                    }
+                    model.push(format!("J frame {}", pc));
+                    imp.push(match got.as_slice() {
+                        [l] => format!("TO {}", l),
+                        [] => "nobody".into(),
+                        more => format!("several:{:?}", more),
+                    });
+                }
+                SOp::Stale => {
+                    let pc = freed.iter().copied().find(|c| !peer_live.contains(c)).unwrap_or(4242);
+                    let t = transfer(5, Some(0), Some(vec![9]), Some(true), false);
+                    peer.send(pc, Performative::Transfer(t), &message_bytes(78, 6)).await.map_err(|e| format!("{:?}", e))?;
+                    let mut closed = false;
+                    for _ in 0..8 {
+                        match peer.recv_frame().await {
+                            Ok((_, Performative::Close(c), _)) => {
+                                closed = c.error.is_some();
+                                break;
+                            }
+                            Ok(_) => {}
+                            Err(_) => break,
+                        }
+                    }
+                    model.push(format!("J frame {}", pc));
+                    imp.push(if closed { "NOTFOUND".into() } else { "ignored".into() });
+                    break;
+                }
+            }
+        }
+        let verdict = imp.iter().zip(model.iter()).find(|(i, _)| i.starts_with("several") || *i == "nobody").map(|(i, m)| ("misrouted".to_string(), format!("{} -> {}", m, i)));
         Ok((model, imp, verdict))
     })
 }
@@ -674,9 +868,9 @@ pub fn main(opts: &Opts) {
                 }
             }
         }
-        if let Some(tag) = j.get("routing_history_rng").and_then(|x| x.as_u64()) {
+        if let Some((tag, chan)) = j.get("routing_history_rng").and_then(|x| x.as_u64()).map(|t| (t, false)).or_else(|| j.get("channel_history_rng").and_then(|x| x.as_u64()).map(|t| (t, true))) {
             let mut r = Rng(tag);
-            match run_routing_history(&mut r) {
+            match if chan { run_channel_history(&mut r) } else { run_routing_history(&mut r) } {
                 Ok((ml, il, verdict)) => {
                     let model = if driver_available() { run_driver(&ml).unwrap_or_default() } else { vec![] };
                     for (i, l) in ml.iter().enumerate() {
@@ -806,6 +1000,26 @@ pub fn main(opts: &Opts) {
                 impl_lines.extend(il);
             }
             Err(e) => report.finding(Finding { kind: "violation", key: "routing-history-failed".into(), description: e, replay: json!({"property": "C11", "module": "ids", "routing_history_rng": tag}) }),
+        }
+    }
+    // histories of begins / ends / deliveries against the channel-routing model
+    for _ in 0..(2 * n_r) {
+        report.evaluations += 1;
+        report.count("channel_histories");
+        let mut r2 = rng.fork();
+        let tag = r2.0;
+        match run_channel_history(&mut r2) {
+            Ok((ml, il, verdict)) => {
+                if ml.iter().filter(|l| l.starts_with("J inbegin")).count() >= 3 {
+                    report.nontrivial_case(tag ^ 0x99);
+                }
+                if let Some((key, desc)) = verdict {
+                    report.finding(Finding { kind: "violation", key: format!("channel-routing:{}", key), description: desc, replay: json!({"property": "C11", "module": "ids", "channel_history_rng": tag, "model_lines": ml, "implementation": il}) });
+                }
+                model_lines.extend(ml);
+                impl_lines.extend(il);
+            }
+            Err(e) => report.finding(Finding { kind: "violation", key: "channel-history-failed".into(), description: e, replay: json!({"property": "C11", "module": "ids", "channel_history_rng": tag}) }),
         }
     }
     // routing by channel
